@@ -241,6 +241,9 @@ func recvCore(c *chanState) (any, bool) {
 	}
 	v, ok, done := e.tryRecv(c, g)
 	if !done {
+		// a receive from an unbuffered channel is synchronised before the completion of the
+		// corresponding send: what this goroutine did so far is visible to whoever hands it a value
+		raceReleaseMerge(unsafe.Pointer(&c.tokR))
 		c.recvq = push(c.recvq, &waiter{g: g})
 		e.touchChan(c)
 		e.block(g, "chan receive")
@@ -471,6 +474,7 @@ func Select(site int, def bool, cs ...Case) int {
 			raceReleaseMerge(unsafe.Pointer(&s.tokS))
 			s.sendq = push(s.sendq, w)
 		} else {
+			raceReleaseMerge(unsafe.Pointer(&s.tokR))
 			s.recvq = push(s.recvq, w)
 		}
 		ss.chans = push(ss.chans, s)
